@@ -1,7 +1,10 @@
 // Package ref holds reference models that are written from the language description, not from the implementation.
 package ref
 
-import "strings"
+import (
+	"strings"
+	"unicode/utf8"
+)
 
 // EOL conventions.
 const (
@@ -78,6 +81,44 @@ func Locate(b []byte, index int, conv string) Loc {
 // QuoteOK: the quote must be the left-trimmed text of the line; a line longer than 200 bytes may be cut after 197
 // bytes and marked with "...". A line consisting of blanks only may be reported trimmed or untouched.
 func QuoteOK(quote, lineText string) bool {
+	if quoteOK(quote, lineText) {
+		return true
+	}
+	// the observation travelled through JSON, which replaces every byte that is not valid UTF-8 by U+FFFD
+	return quoteOKCoerced(quote, lineText)
+}
+
+func quoteOKCoerced(quote, lineText string) bool {
+	trim := strings.TrimLeft(lineText, " \t\r\n")
+	if quote == JSONCoerce(trim) || quote == JSONCoerce(lineText) {
+		return true
+	}
+	if len(lineText) > 200 && strings.HasSuffix(quote, "...") {
+		cut := strings.TrimLeft(lineText[:197], " \t\r\n")
+		return quote == JSONCoerce(cut)+"..."
+	}
+	return false
+}
+
+// JSONCoerce mimics what encoding/json does to a string that is not valid UTF-8.
+func JSONCoerce(s string) string {
+	if utf8.ValidString(s) {
+		return s
+	}
+	var sb strings.Builder
+	for i := 0; i < len(s); {
+		r, n := utf8.DecodeRuneInString(s[i:])
+		if r == utf8.RuneError && n == 1 {
+			sb.WriteRune(utf8.RuneError)
+		} else {
+			sb.WriteString(s[i : i+n])
+		}
+		i += n
+	}
+	return sb.String()
+}
+
+func quoteOK(quote, lineText string) bool {
 	trim := strings.TrimLeft(lineText, " \t\r\n")
 	if quote == trim || quote == lineText {
 		return true
